@@ -132,6 +132,7 @@ pub(crate) fn implements_trait(
             let impls = match &type_item.inner {
                 ItemEnum::Struct(s) => &s.impls,
                 ItemEnum::Enum(e) => &e.impls,
+                ItemEnum::Union(u) => &u.impls,
                 n => {
                     dbg!(n);
                     unreachable!()
